@@ -62,16 +62,33 @@ func TestC20(t *testing.T) {
 		var idMu sync.Mutex
 		var burstDupHost, burstDupPlugin []uint32
 		done := func() {
-			o.Ops, o.OpErrs, o.Panics = oc.n, oc.err, oc.panics
-			o.DupHost, o.DupPlugin = append(dups(o.HostIDs), burstDupHost...), append(dups(o.PluginIDs), burstDupPlugin...)
-			if len(o.HostIDs) > 50 {
-				o.HostIDs = o.HostIDs[:50]
+			// (copies taken under the locks the workers use: after a round that did not finish, workers may
+			// still be running when the observation is written)
+			cp := func(m map[string]int) map[string]int {
+				r := map[string]int{}
+				for k, v := range m {
+					r[k] = v
+				}
+				return r
 			}
-			if len(o.PluginIDs) > 50 {
-				o.PluginIDs = o.PluginIDs[:50]
+			oc.mu.Lock()
+			ops, opErrs, panics := cp(oc.n), cp(oc.err), append([]string(nil), oc.panics...)
+			oc.mu.Unlock()
+			idMu.Lock()
+			out := o
+			out.HostIDs, out.PluginIDs = append([]uint32(nil), o.HostIDs...), append([]uint32(nil), o.PluginIDs...)
+			bh, bp := append([]uint32(nil), burstDupHost...), append([]uint32(nil), burstDupPlugin...)
+			idMu.Unlock()
+			out.Ops, out.OpErrs, out.Panics = ops, opErrs, panics
+			out.DupHost, out.DupPlugin = append(dups(out.HostIDs), bh...), append(dups(out.PluginIDs), bp...)
+			if len(out.HostIDs) > 50 {
+				out.HostIDs = out.HostIDs[:50]
 			}
-			o.Hooks = routeHooks.Snapshot()
-			e.Ret("h", "round", o)
+			if len(out.PluginIDs) > 50 {
+				out.PluginIDs = out.PluginIDs[:50]
+			}
+			out.Hooks = routeHooks.Snapshot()
+			e.Ret("h", "round", out)
 		}
 		var stopped atomic.Bool
 		if p.Kind == "managed" {
